@@ -285,7 +285,7 @@ def g_lattice(rng, n, prefix_name="v"):
     return "\n".join(lines)
 
 
-def g_modulated(rng, extra=True):
+def g_modulated(rng, extra=True, focus=False):
     """Input-modulated modules: one or two inputs switch the *logic* of a module (a corpus core, an
     oscillator or a bistable pair) while its wiring stays (almost) the same, next to an optional
     independent module.  Under different input valuations the percolated networks have the same
@@ -293,6 +293,8 @@ def g_modulated(rng, extra=True):
     cs = cores()
     lines = ["i0, i0"]
     kind = rng.choice(["maa", "maa", "multi", "osc"])
+    if focus:
+        kind = "maa"        # a motif-avoidant core under one valuation, other logic over the same variables under the other
     if kind == "osc":
         n = 2
         cn = ["m0", "m1"]
@@ -303,6 +305,8 @@ def g_modulated(rng, extra=True):
         cn = [f"m{i}" for i in range(n)]
         f = [tt_to_expr(n, c["tt"][i], cn) for i in range(n)]
     alt_kind = rng.choice(["freeze", "other", "latch", "xor", "samewire", "samewire"])
+    if focus:
+        alt_kind = rng.choice(["cycle", "cycle", "latch", "other", "xor"])
     if alt_kind == "samewire":
         # the input switches the *function* of the module while regulators and signs stay the same
         n = 3
@@ -317,6 +321,8 @@ def g_modulated(rng, extra=True):
     for k in range(n if alt_kind != "samewire" else 0):
         if alt_kind == "freeze":
             g = cn[k]
+        elif alt_kind == "cycle":
+            g = cn[(k + 1) % n]          # positive cycle: stable motifs all-0 and all-1, no motif-avoidant attractor
         elif alt_kind == "latch":
             g = f"{cn[k]} | {rng.choice(cn)}"
         elif alt_kind == "xor":
@@ -326,7 +332,7 @@ def g_modulated(rng, extra=True):
             g = rand_expr(rng, cn, 2)
         a, b = (f[k], g) if rng.random() < 0.5 else (g, f[k])
         lines.append(f"{cn[k]}, (i0 & ({a})) | (!i0 & ({b}))")
-    has_extra = extra and rng.random() < 0.7
+    has_extra = extra and (focus or rng.random() < 0.7)
     if has_extra:
         r = rng.random()
         if r < 0.4:
